@@ -58,6 +58,13 @@ func (e *Engine) TrimSuffix() {
 	keys := e.keys.Caller()
 	key := keys[0]
 
+	// Only a character that the matcher designates as a removable
+	// suffix is ever removed: the last one of any other candidate stays.
+	if !e.sm.Matches(string(suf)) {
+		e.sm = SuffixMatcher{}
+		return
+	}
+
 	// Special case when completing paths: if the comp is ended
 	// by a slash, only remove this slash if the inserted key is
 	// one of the suffix matchers, otherwise keep it.
